@@ -13,7 +13,8 @@ LEVEL_TEXT = ("calc_duration is compared with (end-start) mod 1440 rendered H:MM
 RULE = ("pairs (start, end) of HH:MM strings; thorough: all 2,073,600; quick: all pairs with start or end in {00:00,00:01,"
         "11:59,12:00,12:01,23:58,23:59} or |end-start| <= 1 (mod 1440) plus Hypothesis pairs. Non-trivial = end <= start "
         "(wrap or zero); distinct by (start, end)."
-        ' Also: boundary rows repeated on DST-change days of 5 other host zones, and SwitcherSchedule objects built repeatedly with a re-used slot id; the two texts handed over as str-subclass instances and (str, Enum) members (text-forms); 70 000 (thorough 300 000) distinct pairs in one process followed by the first ones again (many-distinct).')
+        ' Also: boundary rows repeated on DST-change days of 5 other host zones, and SwitcherSchedule objects built repeatedly with a re-used slot id; the two texts handed over as str-subclass instances and (str, Enum) members (text-forms); 70 000 (thorough 300 000) distinct pairs in one process followed by the first ones again (many-distinct).'
+        " listed-schedules: get-schedules replies whose slot time stamps carry odd seconds or straddle offset changes are parsed; each listed object's duration must be that of the HH:MM start/end the same object reports.")
 ASSUMPTIONS = ["the result must not depend on the host zone or date: boundary rows are repeated on DST-change days of 5 other host zones (time_machine)", "format H:MM:SS = str(timedelta) of whole minutes, hours not zero-padded, as the statement says"]
 
 EDGE = [0, 1, 719, 720, 721, 1438, 1439]
